@@ -19,12 +19,14 @@ META = {
         "bytes unchanged to from_str_bytes (R-05.4: no trimming or pre-filtering).  No panic: every slicing/indexing operation, Assert terminator "
         "and panicking call reachable from the parser is enumerated and discharged by a named idiom (window inside the "
         "gated length, constant index below a gated length, u8 index into a 256-entry table, constant arithmetic)."
+        "  from_str_bytes itself is decided by abstract evaluation (rmodel, DESIGN 9.5): the length gate on a dense range of lengths, acceptance and error applicability for all combinations of abstract outcomes, decoder windows; the path-shape rules above are the fallback."
     ),
     "trusted_base": ["rustc nightly front end and constant evaluator", "hex_simd::decode accepts exactly hex digits of either case and does not panic (external)",
                      "core slice iterators (chunks_exact, zip, iter_mut) do not panic for a non-zero chunk size"],
     "assumptions": [],
     "not_decided": ["hex_simd::decode's own alphabet"],
 }
+TECHNIQUE = 'abstract evaluation of from_str_bytes on opaque inputs (dense length range x all outcome combinations), decoder evaluation on byte classes, entry-point forwarding rules, panic-site idiom discharge'
 PE = lambda v: ("agg", "adt:core::result::Result::Err", (("agg", "adt:errors::ParseError::" + v, ()),))
 
 
